@@ -12,7 +12,7 @@ RULE = ("same histories as C14; oracle: before close every read returns the fres
 
 
 def run(ctx):
-    return _life.run(ctx, "C15", ORACLES, RULE, 250, 8000, 3, 4)
+    return _life.run(ctx, "C15", ORACLES, RULE, 250, 8000, 4, 5)
 
 
 def search(ctx, broken, corr_broken):
